@@ -483,6 +483,10 @@ def main_check(prop, module, argv):
         return module.replay(ctx, json.load(open(args.replay)))
     shutil.rmtree(ctx.work, ignore_errors=True)
     os.makedirs(ctx.work, exist_ok=True)
+    if os.path.isdir(REPLAYS):
+        for fn in os.listdir(REPLAYS):
+            if fn.startswith(prop + '-'):
+                os.remove(os.path.join(REPLAYS, fn))
     os.makedirs(EVIDENCE, exist_ok=True)
 
     tie_errors = []
